@@ -200,6 +200,33 @@ def driver_positions(seed, n):
     return [l for l in out.split("\n") if l.strip()]
 
 
+class Pipe:
+    """persistent line-protocol process (driver or harness): ask(line) -> answer line"""
+
+    def __init__(self, cmd):
+        self.p = subprocess.Popen(cmd, stdin=subprocess.PIPE, stdout=subprocess.PIPE, text=True, bufsize=1, env=ENV)
+
+    def ask(self, line):
+        self.p.stdin.write(line + "\n")
+        self.p.stdin.flush()
+        return self.p.stdout.readline().rstrip("\n")
+
+    def close(self):
+        try:
+            self.p.stdin.close()
+            self.p.wait(10)
+        except Exception:
+            self.p.kill()
+
+
+def driver_pipe():
+    return Pipe([DRIVER, "run"])
+
+
+def harness_pipe():
+    return Pipe([harness_path()])
+
+
 class Result:
     """accumulates the three-way comparison"""
 
